@@ -185,7 +185,7 @@ def drain_ops(peers, rounds=14):
     return ops
 
 
-def sequence_case(rng, tier, oracles, long=False):
+def sequence_case(rng, tier, oracles, long=False, probe_max=6):
     """one peer, many runs"""
     if long:
         width = rng.choice([20, 40, 60]) if tier == "thorough" else rng.choice([6, 10])
@@ -200,10 +200,11 @@ def sequence_case(rng, tier, oracles, long=False):
     ops = adversarial_return_ops(rng, n_runs, peers=1)
     return {"script": script, "peers": ["A"], "init": 0, "services": SERVICES, "ops": ops + drain_ops(1, 6 if not long else 30),
             "oracles": list(oracles), "stream_fold_sites": stream_sites, "gen": "chain-long" if long else "chain",
-            "probe": {"every": 11 if long else 3, "special": True, "max": 6}, "seed": rng.randrange(1 << 30)}
+            "probe": ({"every": 0, "at": sorted({0, rng.randrange(5, 40), rng.randrange(40, max(41, n_runs - 10))}), "special": True, "max": probe_max}
+                      if long else {"every": 3, "special": True, "max": probe_max}), "seed": rng.randrange(1 << 30)}
 
 
-def generated_case(rng, tier, oracles, peers=3, streams=True, n_ops=None, p_extra=0.4):
+def generated_case(rng, tier, oracles, peers=3, streams=True, n_ops=None, p_extra=0.4, probe_max=5):
     prof = airgen.Profile(peers=peers, depth=rng.choice([3, 4, 4, 5]), streams=streams, canon=streams and rng.random() < 0.6,
                           stream_folds=streams, var_targets=peers > 1, last_error=False,
                           par_weight=rng.choice([3, 5]), xor_weight=rng.choice([1, 2, 3]))
@@ -213,7 +214,7 @@ def generated_case(rng, tier, oracles, peers=3, streams=True, n_ops=None, p_extr
     ops = adversarial_return_ops(rng, n, peers=peers, p_extra=p_extra, with_cur=peers > 1)
     return {"script": script, "peers": airgen.PEERS[:peers], "init": 0, "services": SERVICES, "ops": ops + drain_ops(peers),
             "oracles": list(oracles), "stream_fold_sites": stream_sites, "gen": "airgen/%dp%s" % (peers, "/streams" if streams else ""),
-            "probe": {"every": 4, "special": True, "max": 5}, "seed": rng.randrange(1 << 30)}
+            "probe": {"every": 4, "special": True, "max": probe_max}, "seed": rng.randrange(1 << 30)}
 
 
 # the history of DESIGN section 7-11 (stream fold cursor hole), with tagged services and unique sites
